@@ -173,7 +173,15 @@ PROBES = {
     "hunk-header-line-number-style": (HEAD.replace(b"+1,2", b"+77,2") + b" x\n", "77", None),
     "blame-code-style": (b"01234567 (A U Thor 2020-01-01 00:00:00 +0000 1) PROBE\n", "PROBE", ["git", "blame", "f"]),
 }
-EXTRA_OPTS = {"line-numbers-zero-style": {"line-numbers": True, "hunk-header-style": "omit"},
+# not options of their own: the style a --map-styles entry maps to (probe: a line git marked as moved), and a colour of
+# --blame-palette (colours only, the background of a blame line)
+PSEUDO = {"map-styles-target": ("map-styles", "bold purple => %s"), "blame-palette-colour": ("blame-palette", "%s")}
+PROBES["map-styles-target"] = (HEAD + b" ctx\n\x1b[1;35m-PROBE\x1b[m\n", "PROBE", None)
+PROBES["blame-palette-colour"] = (b"01234567 (A U Thor 2020-01-01 00:00:00 +0000 1) PROBE\n", "PROBE", ["git", "blame", "f"])
+# the wrap symbol of a wrapped side-by-side row (on an unchanged and on an added line)
+PROBES["inline-hint-style"] = (HEAD + b" " + b"w" * 40 + b"\n+" + b"v" * 40 + b"\n", "\u21b5", None)
+EXTRA_OPTS = {"inline-hint-style": {"side-by-side": True, "width": "60"},
+              "line-numbers-zero-style": {"line-numbers": True, "hunk-header-style": "omit"},
               "line-numbers-plus-style": {"line-numbers": True, "hunk-header-style": "omit"},
               "line-numbers-minus-style": {"line-numbers": True, "hunk-header-style": "omit"},
               "grep-file-style": {"grep-output-type": "classic"},
@@ -181,6 +189,8 @@ EXTRA_OPTS = {"line-numbers-zero-style": {"line-numbers": True, "hunk-header-sty
 
 
 def base(option, value, true_color):
+    if option in PSEUDO:
+        option, value = PSEUDO[option][0], PSEUDO[option][1] % value
     o = {"no-gitconfig": True, "paging": "never", "detect-dark-light": "never", "dark": True,
          "syntax-theme": "none", "width": "60", "true-color": "always" if true_color else "never",
          option: value}
@@ -223,6 +233,10 @@ def run_task(task):
             break
         n += 1
         fg, bg, attrs, omit, raw = reference(seq, true_color)
+        if option == "inline-hint-style" and bg is None:
+            bg = ANY                # inserted into a line that has a background of its own
+        if option == "blame-palette-colour":
+            fg, bg = None, fg       # a palette entry is a background colour
         if fg is None and any(k == "colour" and t.lower() == "syntax" for k, t in seq[:1] if True):
             pass
         args = build_args(base(option, s, true_color))
@@ -252,24 +266,26 @@ def run_task(task):
                         klass = "wrong-style:background-lost"
                 else:
                     distinct.add(next(iter(styles)))
-                # round trip through --show-config (for the three main options)
-                if err is None and option in ("plus-style", "zero-style", "file-style", "commit-style"):
-                    cfg_text, _ = drv.showconfig(cid)
-                    m = re.search(r"^\s+%s\s+= (.*)$" % re.escape(option), term.strip(cfg_text), re.M)
-                    if not m:
+            # round trip through --show-config (every option it lists; also for omit / raw strings)
+            if err is None and option not in PSEUDO:
+                cfg_text, _ = drv.showconfig(cid)
+                m = re.search(r"^\s+%s\s+= (.*)$" % re.escape(option), term.strip(cfg_text), re.M)
+                if not m:
+                    # (--show-config lists a selection of the options)
+                    if option in ("plus-style", "zero-style", "file-style", "commit-style"):
                         err, klass = "option not found in --show-config", "show-config"
-                    else:
-                        back = m.group(1).strip()
-                        try:
-                            cid2 = drv.mkconfig(build_args(base(option, back, true_color)))
-                            r2 = drv.render1(cid2, inp)
-                            drv.drop(cid2)
-                            if r2.out != r.out:
-                                err = "--show-config prints %r for %r; given back it renders differently" % (back, s)
-                                klass = "round-trip"
-                        except explore.Rejected as e:
-                            err = "--show-config prints %r for %r, which delta then rejects" % (back, s)
-                            klass = "round-trip-rejected"
+                else:
+                    back = m.group(1).strip()
+                    try:
+                        cid2 = drv.mkconfig(build_args(base(option, back, true_color)))
+                        r2 = drv.render1(cid2, inp)
+                        drv.drop(cid2)
+                        if r2.out != r.out:
+                            err = "--show-config prints %r for %r; given back it renders differently" % (back, s)
+                            klass = "round-trip"
+                    except explore.Rejected as e:
+                        err = "--show-config prints %r for %r, which delta then rejects" % (back, s)
+                        klass = "round-trip-rejected"
             drv.drop(cid)
         if sample is None:
             sample = {"option": option, "style": s, "expected": [str(fg), str(bg), attrs]}
@@ -354,6 +370,10 @@ def main(tier):
     deadline = t0 + cap
     items = list(gen_strings(tier))
     core40 = items[:: max(1, len(items) // 40)][:40]
+    # `omit` / `raw` together with other words (elements that do not honour them paint with the other words)
+    specials = [x for x in items if any(k == "special" for k, _ in x[1])] + \
+        [(t, [(("special" if w in ("raw", "omit") else "attr" if w in ATTRS else "colour"), w) for w in t.split()])
+         for t in ("raw red", "bold raw yellow 57", "raw reverse red", "omit blue", "raw omit")]
     sweeps = []
     nums = range(256)
     for n in nums:
@@ -375,8 +395,14 @@ def main(tier):
         for i in range(0, len(sweeps), 500):
             tasks.append(("plus-style", tc, sweeps[i:i + 500], deadline))
         for opt in PROBES:
-            if opt not in ("plus-style", "zero-style", "file-style"):
-                tasks.append((opt, tc, core40, deadline))
+            if opt == "blame-palette-colour":
+                cols = [x for x in sweeps if len(x[1]) == 1]
+                tasks.append((opt, tc, cols[::7] + [x for x in cols if x[0].startswith("#")], deadline))
+            elif opt == "map-styles-target":
+                tasks.append((opt, tc, [x for x in core40 if not any(k == "special" for k, _ in x[1])]
+                              + [x for x in sweeps if x[0].startswith(("normal #", "#"))][::3], deadline))
+            elif opt not in ("plus-style", "zero-style", "file-style"):
+                tasks.append((opt, tc, core40 + specials, deadline))
     res = explore.pmap(run_task, tasks)
     res_case = explore.pmap(run_case, [([o], deadline) for o in CASE_OPTS])
     n = sum(r["n"] for r in res)
